@@ -22,7 +22,7 @@
                     GCas   CAS callbackInProcess 0->1; won -> GMove; lost -> GWgDone (wg.Done) -> GExit
      Close()/close()  (stream.go 275-327, run by closer threads, by OnData, and by the goroutine's exit path)
                     KStart callbacks installed: store callbackCloseState waitExit
-                    KLdIn  load callbackInProcess; 1 -> KHalf: CAS state opened->localHalfClosed; return
+                    KLdIn  load callbackInProcess; 1 -> KHalf: CAS state opened->localHalfClosed (won: safeCloseNotify); return
                     CLd    load state (closed: return);  CCas old: CAS state old->closed (lost: back to CLd)
                     CWait  asyncGoroutineWg.Wait() (callbacks installed)
                     CTbl   clean(): load state, session.onStreamClose (table delete); CPend pendingData.clear;
@@ -42,9 +42,8 @@ Open Scope Z_scope.
 
 Definition v_callbackWaitExit : Z := c_callbackWaitExit.
 (* streamLocalHalfClosed (stream.go const block, after streamHalfClosed): the state Close() moves an open
-   stream to when a callback goroutine is running.  Not yet among the generated constants — the value is
-   pinned by the access-trace correspondence: the CAS in Close() logs it. *)
-Definition v_streamLocalHalfClosed : Z := 3.
+   stream to when a callback goroutine is running. *)
+Definition v_streamLocalHalfClosed : Z := c_streamLocalHalfClosed.
 
 Inductive ev := EData (m : list Z) | EClose.
 
@@ -166,7 +165,9 @@ Definition cstep (s : est) (c : cpc) : est * cpc :=
   match c with
   | KStart => (if cbset s then set_cstate v_callbackWaitExit s else s, KLdIn)
   | KLdIn => if inproc s =? 1 then (set_khalf true s, KHalf) else (s, CLd)
-  | KHalf => if st s =? c_streamOpened then (set_lhalf true (set_st v_streamLocalHalfClosed s), KRet) else (s, KRet)
+  | KHalf => if st s =? c_streamOpened
+             then (set_cnotify true (set_lhalf true (set_st v_streamLocalHalfClosed s)), KRet)  (* + safeCloseNotify *)
+             else (s, KRet)
   | CLd => if st s =? c_streamClosed then (s, KRet) else (s, CCas (st s))
   | CCas old => if st s =? old
                 then (set_st c_streamClosed s, if cbset s then CWait old else CTbl old)
